@@ -74,6 +74,45 @@ def _sanitised(block, idx, var):
     return False
 
 
+def _sanitising_helper(model: Model, f: Func, call) -> bool:
+    """a repository function that returns a norm replaced by a positive constant when it is not positive"""
+    if not isinstance(call, ast.Call):
+        return False
+    r = model.resolve(f.module, call.func)
+    g = model.functions.get(r) if r else None
+    if g is None or not any(_is_norm_call(n) for n in ast.walk(g.node)):
+        return False
+    rets = [n for n in ast.walk(g.node) if isinstance(n, ast.Return) and n.value is not None]
+    if not rets:
+        return False
+    for rt in rets:
+        v = rt.value
+        if isinstance(v, ast.IfExp) and isinstance(v.test, ast.Compare) and isinstance(v.test.ops[0], ast.Gt) and _positive_const(v.orelse):
+            continue
+        if _positive_const(v):
+            continue
+        if isinstance(v, ast.Name):
+            for block in _blocks(g.node):
+                if rt in block and _sanitised(block, block.index(rt), v.id):
+                    break
+            else:
+                return False
+            continue
+        return False
+    return True
+
+
+def _helper_defined(model, f, block, idx, var):
+    """the last definition of var before block[idx] is a call of a sanitising helper"""
+    for j in range(idx - 1, -1, -1):
+        s = block[j]
+        if isinstance(s, ast.Assign) and len(s.targets) == 1 and isinstance(s.targets[0], ast.Name) and s.targets[0].id == var:
+            return _sanitising_helper(model, f, s.value)
+        if any(isinstance(x, ast.Name) and x.id == var and isinstance(x.ctx, ast.Store) for x in ast.walk(s)):
+            return False
+    return False
+
+
 def rule_zero_norm(model: Model, short: str):
     f = model.func(short)
     obs = []
@@ -82,6 +121,9 @@ def rule_zero_norm(model: Model, short: str):
         return [Ob("ZERO-NORM", f"{short}:ZERO-NORM:trackers", ERROR, model.where(f), short, "norm trackers (np.ones arrays divided by / logged later) not found")]
     norm_vars = {n.targets[0].id for n in ast.walk(f.node) if isinstance(n, ast.Assign) and len(n.targets) == 1 and isinstance(n.targets[0], ast.Name)
                  and _is_norm_call(n.value)}
+    helper_vars = {n.targets[0].id for n in ast.walk(f.node) if isinstance(n, ast.Assign) and len(n.targets) == 1 and isinstance(n.targets[0], ast.Name)
+                   and _sanitising_helper(model, f, n.value)}
+    norm_vars |= helper_vars
     seen = {}
     for block in _blocks(f.node):
         for i, s in enumerate(block):
@@ -99,7 +141,7 @@ def rule_zero_norm(model: Model, short: str):
             n = seen.get(text, 0)
             seen[text] = n + 1
             k = f"{short}:ZERO-NORM:{text}:{n}"
-            bad = [v for v in used if not _sanitised(block, i, v)]
+            bad = [v for v in used if not (_sanitised(block, i, v) or _helper_defined(model, f, block, i, v))]
             if bad:
                 obs.append(Ob("ZERO-NORM", k, VIOLATED, model.where(f, s), text,
                               f"{short}: `{text}` stores the norm `{bad[0]}` in the tracker `{tgt.value.id}` without replacing a zero norm by a positive "
@@ -108,6 +150,15 @@ def rule_zero_norm(model: Model, short: str):
             else:
                 obs.append(Ob("ZERO-NORM", k, OK, model.where(f, s), text, f"`{used[0]}` is replaced by a positive constant when it is not positive before the store"))
     return obs
+
+
+def _is_unit_vector(fn, name):
+    zeros = any(isinstance(n, ast.Assign) and isinstance(n.targets[0], ast.Name) and n.targets[0].id == name and isinstance(n.value, ast.Call)
+                and norm(n.value.func).endswith("zeros") for n in ast.walk(fn))
+    one = any(isinstance(n, ast.Assign) and isinstance(n.targets[0], ast.Subscript) and isinstance(n.targets[0].value, ast.Name)
+              and n.targets[0].value.id == name and norm(n.targets[0].slice) == "0" and isinstance(n.value, ast.Constant) and n.value.value == 1
+              for n in ast.walk(fn))
+    return zeros and one
 
 
 def rule_arnoldi_seed(model: Model):
@@ -119,10 +170,10 @@ def rule_arnoldi_seed(model: Model):
             if isinstance(t, ast.Subscript) and isinstance(n.value, ast.BinOp) and isinstance(n.value.op, ast.Div) and norm(t).replace(" ", "").endswith("[:,0]"):
                 seed = (n, n.value.right, n.value.left)
             if isinstance(t, ast.Name) and isinstance(n.value, ast.BinOp) and isinstance(n.value.op, ast.Mult):
-                names = {x.id for x in ast.walk(n.value) if isinstance(x, ast.Name)}
-                if "e1" in names:
-                    other = n.value.left if norm(n.value.right) == "e1" else n.value.right
-                    scale = (n, other)
+                # <scalar> * <unit vector>: the unit vector is a zeros(...) vector whose entry 0 is set to 1
+                for vec, other in ((n.value.left, n.value.right), (n.value.right, n.value.left)):
+                    if isinstance(vec, ast.Name) and _is_unit_vector(f.node, vec.id):
+                        scale = (n, other)
     k = "_iterative_solvers.gmres:ARNOLDI-SEED"
     if seed is None or scale is None:
         return [Ob("ARNOLDI-SEED", k, ERROR, model.where(f), "Q[:, 0] = r / beta ; beta * e1", "seed of the Krylov basis / least-squares right-hand side not recognised")]
